@@ -64,8 +64,15 @@ func (ex *Executable) SetContextRecursive(ctx interface{}) {
 }
 
 func (ex *Executable) write(buf *bytes.Buffer) {
-	for _, op := range ex.Ops {
-		op.write(buf)
+	// Write the operations in a stable order, like the fragments, so the
+	// same executable always has the same string representation.
+	names := make([]string, 0, len(ex.Ops))
+	for name := range ex.Ops {
+		names = append(names, name)
+	}
+	sort.Strings(names)
+	for _, name := range names {
+		ex.Ops[name].write(buf)
 	}
 	if 0 < len(ex.Fragments) {
 		keys := make([]string, 0, len(ex.Fragments))
